@@ -127,8 +127,22 @@ def check(repo: Repo, rep: Report) -> None:
     for rel_, q_ in (("reactivex/operators/_windowwithcount.py", "window_with_count_"), ("reactivex/operators/_buffer.py", "buffer_with_count_")):
         ff = repo.fn(rel_, q_)
         pc, ps = ff.params[1], ff.params[2]
-        dd = [n_.value for n_ in ff.direct_nodes() if isinstance(n_, ast.Assign) and isinstance(n_.value, ast.IfExp)]
-        okd = any(u(v.orelse) == pc and u(v.body) == ps and ps in u(v.test) for v in dd) or any(u(v.body) == pc and u(v.orelse) == ps and ps in u(v.test) for v in dd)
+        from ..rules import conditional_defs
+        from ..astutil import compare_parts as _cp
+
+        def _none_test(facts, want_none):
+            for e_, p_ in facts:
+                c_ = _cp(e_)
+                if c_ and c_[0] == ps and c_[2] == "None" and c_[1] in ("is", "is not", "==", "!="):
+                    if ((c_[1] in ("is", "==")) == p_) == want_none:
+                        return True
+            return False
+        cds = [d_ for d_ in conditional_defs(ff, lambda t_: isinstance(t_, ast.Name) and t_.id not in (pc, ps))]
+        byt = {}
+        for s_, v_, f_ in cds:
+            byt.setdefault(u(s_.node.targets[0]), []).append((v_, f_))
+        okd = any(any(u(v_) == pc and _none_test(f_, True) for v_, f_ in lst) and any(u(v_) == ps and _none_test(f_, False) for v_, f_ in lst) for lst in byt.values())
+        dd = [s_.node.value for s_, v_, f_ in cds if u(v_) in (pc, ps)]
         rep.ob("F6-skip-default", ff, f"{q_}: `{short(dd[0], 50) if dd else '?'}`", okd,
                f"{q_} does not default an omitted skip to count: windows / buffers of an operator called with count only do not tile the source "
                f"(or the call fails on None)")
